@@ -2,8 +2,8 @@
    solver implies feasibility. Only statements + `exact` + Print Assumptions live here.
    Model: C05_Defs (imports the decision kernels translated from src/function/penalty.cpp, src/function/constraint.cpp,
    src/solver/augmented.cpp and src/solver.cpp on every run). Arithmetic is over exact rationals. *)
-From Coq Require Import List ZArith QArith Bool.
-From LN Require Import C05_Defs C05_Proofs.
+From Coq Require Import List ZArith QArith Bool Lqa.
+From LN Require Import C05_Defs C05_Proofs C05_Outer_Defs C05_Outer.
 Import ListNotations.
 Local Open Scope Q_scope.
 
@@ -212,4 +212,254 @@ Example C05_al_nonvacuous_run :
   let s := al_run exact_rops P (al_init exact_rops [1] [1] [-1] 1) [e1; e2] in
   Forall (fun e => length (e_cineq e) = length [-1]) [e1; e2] /\
   s_status s = Converged /\ s_x s = [1 # 20] /\ s_stopped s = true.
+Proof. vm_compute. repeat split; repeat constructor. Qed.
+
+(* ==================================================================================================================
+   Extension "Outer" (model: C05_Outer_Defs, proofs: C05_Outer): the complete outer loop of the augmented-Lagrangian
+   solver -- make_ro1, ::nano::converged, the multiplier / penalty updates, the multipliers stored in the best state:
+   nothing but the inner solver's answers is an input --, what the multipliers mean (first-order identity, KKT), and
+   the outer loop of solver_penalty_t::minimize (linear- and quadratic-penalty solvers).
+   ================================================================================================================== *)
+
+(* the complete loop refines the loop of C05_Defs: same state, the events only get their dx-convergence flag filled in
+   (so every theorem about al_run, e.g. C05_al_feasible, holds for the complete loop) *)
+Theorem C05_al_outer_refines : forall R P s es,
+  o_core (alo_run R P s es) = al_run R P (o_core s) (alo_decorate R P s es) /\
+  map ev_data (alo_decorate R P s es) = map ev_data es.
+Proof. intros R P s es. exact (conj (alo_run_core R P es s) (alo_decorate_data R P es s)). Qed.
+Print Assumptions C05_al_outer_refines.
+
+(* invariants of EVERY history and EVERY rounding R of the loop's arithmetic: 0 <= miu <= miu_max for the current
+   multipliers and for those stored in the best state; lambda (current / stored) is the initial zero vector or lies
+   within [lambda_min, lambda_max]; all sizes stay those of the problem *)
+Theorem C05_al_multiplier_invariants : forall R P f0 x0 ceq0 cineq0 es,
+  0 <= p_miu_max P -> p_lmin P <= p_lmax P ->
+  Forall (fun e => length (e_ceq e) = length ceq0 /\ length (e_cineq e) = length cineq0) es ->
+  let s := alo_run R P (alo_init R f0 x0 ceq0 cineq0) es in
+  in_range 0 (p_miu_max P) (s_miu (o_core s)) /\ in_range 0 (p_miu_max P) (o_mineq s) /\
+  (in_range (p_lmin P) (p_lmax P) (s_lambda (o_core s)) \/ s_lambda (o_core s) = repeat 0 (length ceq0)) /\
+  (in_range (p_lmin P) (p_lmax P) (o_meq s) \/ o_meq s = repeat 0 (length ceq0)) /\
+  length (s_lambda (o_core s)) = length ceq0 /\ length (s_miu (o_core s)) = length cineq0 /\
+  length (o_meq s) = length ceq0 /\ length (o_mineq s) = length cineq0 /\
+  length (s_ceq (o_core s)) = length ceq0 /\ length (s_cineq (o_core s)) = length cineq0.
+Proof. exact al_multiplier_invariants. Qed.
+Print Assumptions C05_al_multiplier_invariants.
+
+(* non-vacuity: one iteration whose updates 0 + 2/5 * 5 = 2 are clamped to lambda_max = miu_max = 1 *)
+Example C05_al_multipliers_nonvacuous :
+  let P := mkparams (1 # 10) (1 # 2) 10 1 (-1) 1 100 in
+  let es := [mkevent [7] [5] [5] true false true] in
+  let s := alo_run exact_rops P (alo_init exact_rops 1 [0] [1] [2]) es in
+  0 <= p_miu_max P /\ p_lmin P <= p_lmax P /\ 0 < p_gamma P /\
+  Forall (fun e => length (e_ceq e) = length [1] /\ length (e_cineq e) = length [2]) es /\
+  s_lambda (o_core s) = [1] /\ s_miu (o_core s) = [1] /\ s_stopped (o_core s) = false.
+Proof. vm_compute. repeat split; try discriminate; repeat constructor. Qed.
+
+(* the penalty parameter (exact arithmetic): ro_1 = make_ro1 lies within [1e-6, 10] whatever the start, ro is ro_1 times
+   a power of gamma (at most one factor per outer iteration), hence positive *)
+Theorem C05_al_ro_rule : forall P f0 x0 ceq0 cineq0 es,
+  let ro1 := make_ro1 exact_rops f0 ceq0 cineq0 in
+  let s := alo_run exact_rops P (alo_init exact_rops f0 x0 ceq0 cineq0) es in
+  ro_min <= ro1 /\ ro1 <= ro_max /\
+  (exists k, (Z.of_nat k <= s_outer (o_core s))%Z /\ s_ro (o_core s) == ro1 * qpow (p_gamma P) k) /\
+  (exists k, (Z.of_nat k <= s_outer (o_core s))%Z /\ o_bro s == ro1 * qpow (p_gamma P) k) /\
+  (0 < p_gamma P -> 0 < s_ro (o_core s) /\ 0 < o_bro s).
+Proof. exact al_ro_rule. Qed.
+Print Assumptions C05_al_ro_rule.
+
+(* the first-order identity that justifies the method: for EVERY point (es = the evaluated constraints), every
+   ro > 0 and every multipliers, the gradient the augmented-Lagrangian object returns is the gradient of the ordinary
+   Lagrangian grad f + sum lambda+_j grad h_j + sum miu+_i grad g_i (accumulated as update_constraints does: m_lgx) at the
+   UN-clamped updated multipliers lambda+ = lambda + ro h, miu+ = max(0, miu + ro g) *)
+Theorem C05_al_gradient_identity : forall rho lambda miu f0 es,
+  0 < rho -> length lambda = length (eqs es) -> length miu = length (ineqs es) ->
+  let lambda' := next_lambda rho lambda (map ce_val (eqs es)) in
+  let miu' := next_miu rho miu (map ce_val (ineqs es)) in
+  forall j,
+    vnth (snd (augmented_lagrangian rho lambda miu f0 es)) j == vnth (lagrangian_grad (snd f0) es lambda' miu') j /\
+    vnth (lagrangian_grad (snd f0) es lambda' miu') j ==
+      vnth (snd f0) j + qsum (map (fun p => snd p * vnth (ce_grad (fst p)) j) (combine (eqs es) lambda'))
+                      + qsum (map (fun p => snd p * vnth (ce_grad (fst p)) j) (combine (ineqs es) miu')).
+Proof. exact al_gradient_identity. Qed.
+Print Assumptions C05_al_gradient_identity.
+
+(* non-vacuity: the mix of C05_defs_nonvacuous (ro = 2, lambda = 2, miu = (4, 2)): lambda+ = 0, miu+ = (10, 0), both
+   gradients are (10, 0) *)
+Example C05_al_gradient_identity_nonvacuous :
+  let es := [mkcev false 3 [1; 0]; mkcev true (-1) [0; 1]; mkcev false (-5) [1; 1]] in
+  0 < 2 /\ length [2] = length (eqs es) /\ length [4; 2] = length (ineqs es) /\
+  vnth (lagrangian_grad [0; 0] es (next_lambda 2 [2] (map ce_val (eqs es))) (next_miu 2 [4; 2] (map ce_val (ineqs es)))) 0 == 10 /\
+  vnth (snd (augmented_lagrangian 2 [2] [4; 2] (10, [0; 0]) es)) 0 == 10.
+Proof. vm_compute. repeat split. Qed.
+
+(* KKT: a `converged` run of the complete loop (exact arithmetic, constraint values of the events = those of the
+   problem) returns a point x with the stored multipliers (lambda, miu) = o_meq / o_mineq and the penalty ro of the
+   iteration that produced it such that, with lambda+ = lambda + ro h(x), miu+ = max(0, miu + ro g(x)):
+     ro > 0; the stored constraint values are the problem's at x;
+     stationarity: grad L(x, lambda+, miu+) = grad L_A(x; ro, lambda, miu) component-wise -- so an inner solution with
+       |grad L_A|_inf <= eps0 is an eps0-stationary point of the ordinary Lagrangian;
+     primal feasibility: every |h_j| <= eps, max(g_i, 0) <= eps;   dual feasibility: miu+ >= 0 (and miu >= 0);
+     approximate complementarity, per inequality: |max(g_i, -miu_i/ro)| <= eps (what make_criterion measures), hence
+       miu+_i > 0 -> -eps <= g_i <= eps, and miu+_i = 0 -> miu_i <= ro eps.
+   Hypotheses: gamma > 0, miu_max >= 0, lambda_min <= lambda_max (the parameter domains). The clamps cost exactly this:
+   the multipliers the NEXT iteration would use are the projections of lambda+ / miu+ onto the boxes (al_step), the
+   identity holds for the un-clamped ones. *)
+Theorem C05_al_kkt : forall fobj cs P f0 x0 ceq0 cineq0 es,
+  0 < p_gamma P -> 0 <= p_miu_max P -> p_lmin P <= p_lmax P ->
+  consistent_triple cs (x0, ceq0, cineq0) -> Forall (consistent cs) es ->
+  let s := alo_run exact_rops P (alo_init exact_rops f0 x0 ceq0 cineq0) es in
+  let c := o_core s in
+  s_status c = Converged ->
+  let ro := o_bro s in
+  let x := s_x c in
+  let lambda' := next_lambda ro (o_meq s) (s_ceq c) in
+  let miu' := next_miu ro (o_mineq s) (s_cineq c) in
+  0 < ro /\
+  consistent_triple cs (x, s_ceq c, s_cineq c) /\
+  (forall j, vnth (snd (augmented_lagrangian_at fobj cs ro (o_meq s) (o_mineq s) x)) j ==
+             vnth (lagrangian_grad (snd (fobj x)) (evals cs x) lambda' miu') j) /\
+  (forall eps0, (forall j, qabs (vnth (snd (augmented_lagrangian_at fobj cs ro (o_meq s) (o_mineq s) x)) j) <= eps0) ->
+                forall j, qabs (vnth (lagrangian_grad (snd (fobj x)) (evals cs x) lambda' miu') j) <= eps0) /\
+  (Forall (fun h => qabs h <= p_eps P) (s_ceq c) /\ Forall (fun g => qmax g 0 <= p_eps P) (s_cineq c)) /\
+  Forall (fun m => 0 <= m) miu' /\ Forall (fun m => 0 <= m) (o_mineq s) /\
+  Forall2 (fun g m => qabs (qmax g ((- m) / ro)) <= p_eps P /\
+                      (0 < qmax 0 (m + ro * g) -> - p_eps P <= g /\ g <= p_eps P) /\
+                      (qmax 0 (m + ro * g) == 0 -> m <= ro * p_eps P)) (s_cineq c) (o_mineq s).
+Proof. exact al_kkt. Qed.
+Print Assumptions C05_al_kkt.
+
+(* non-vacuity: h(x) = x - 2, g(x) = x - 3 from x0 = 0; the inner solver answers x = 2 twice: the first answer replaces
+   the best state, the second one converges (criterion 0, dx 0) *)
+Example C05_al_kkt_nonvacuous :
+  let cs := [CLinEq [1] (-2); CMaximum 3 0] in
+  let ev := fun x => mkevent x (map ce_val (eqs (evals cs x))) (map ce_val (ineqs (evals cs x))) true false true in
+  let P := mkparams (1 # 10) (1 # 2) 10 100 (-100) 100 100 in
+  let x0 := [0] in
+  let ceq0 := map ce_val (eqs (evals cs x0)) in
+  let cineq0 := map ce_val (ineqs (evals cs x0)) in
+  let es := [ev [2]; ev [2]] in
+  let s := alo_run exact_rops P (alo_init exact_rops 1 x0 ceq0 cineq0) es in
+  0 < p_gamma P /\ 0 <= p_miu_max P /\ p_lmin P <= p_lmax P /\
+  consistent_triple cs (x0, ceq0, cineq0) /\ Forall (consistent cs) es /\
+  s_status (o_core s) = Converged /\ o_bset s = true /\ s_x (o_core s) = [2].
+Proof.
+  cbv zeta. split; [reflexivity|]. split; [discriminate|]. split; [discriminate|].
+  split; [split; reflexivity|]. split; [repeat constructor|]. vm_compute. repeat split.
+Qed.
+
+(* ---- the outer loop of solver_penalty_t::minimize (linear- and quadratic-penalty solvers) ---------------------------
+   for EVERY rounding, every evaluation oracle [orig] of the ORIGINAL function, every parameters, start and history
+   of inner-solver answers: the returned state is a state of the original function (its value / constraint values are
+   [orig] at the returned point, not the penalised ones) and its point is the start or a usable (valid) inner solution;
+   the status facts of done(): still running -> max_iters; converged -> stopped, the state is valid and the last inner
+   solution moved less than epsilon max(1, |bstate.x|) away from the previous best point (start or an inner solution);
+   failed -> stopped with an invalid state *)
+Theorem C05_pen_returned_and_status : forall R orig P x0 es,
+  let s := ps_run R orig P (ps_init orig P x0) es in
+  q_eval s = orig (q_x s) /\
+  (q_x s = x0 \/ exists e, In e es /\ pe_ok e = true /\ q_x s = pe_x e) /\
+  (q_stopped s = false -> q_status s = MaxIters) /\
+  (q_status s = Converged ->
+     q_stopped s = true /\ oe_valid (q_eval s) = true /\
+     exists e bx, In e es /\ pe_ok e = true /\ q_x s = pe_x e /\
+                  (bx = x0 \/ exists e', In e' es /\ pe_ok e' = true /\ bx = pe_x e') /\
+                  dx_converged R (ps_eps P) bx (pe_x e) = true) /\
+  (q_status s = Failed -> q_stopped s = true /\ oe_valid (q_eval s) = false).
+Proof. exact pen_returned_and_status. Qed.
+Print Assumptions C05_pen_returned_and_status.
+
+(* (exact arithmetic) the k-th inner solve uses penalty0 * eta^k -- also across the `continue` branch of unusable inner
+   solutions --, there are at most max_outer_iters inner solves, and the inner precision is epsilon0 * epsilonK^j *)
+Theorem C05_pen_penalty_sequence : forall orig P x0 es,
+  let s := ps_run exact_rops orig P (ps_init orig P x0) es in
+  Forall2 Qeq (q_trace s) (pow_trace (ps_penalty0 P) (ps_eta P) (length (q_trace s))) /\
+  (Z.of_nat (length (q_trace s)) <= Z.max 0 (ps_max_outers P))%Z /\
+  length (q_trace s) = (Z.to_nat (q_outer s) + (if q_stopped s then 1 else 0))%nat /\
+  q_penalty s == ps_penalty0 P * qpow (ps_eta P) (Z.to_nat (q_outer s)) /\
+  (exists j, (j <= Z.to_nat (q_outer s))%nat /\ q_inner_eps s == ps_eps0 P * qpow (ps_epsK P) j).
+Proof. exact pen_penalty_sequence. Qed.
+Print Assumptions C05_pen_penalty_sequence.
+
+(* non-vacuity: an unusable inner solution (penalty 10 -> 50, nothing else changes), then a converging one *)
+Example C05_pen_nonvacuous_run :
+  let orig := fun x => mkoeval (hd 0 x * hd 0 x) [hd 0 x - 1] [] true in
+  let P := mkps (1 # 1000000) 5 10 (1 # 1000000) (1 # 2) 20 in
+  let s := ps_run exact_rops orig P (ps_init orig P [10 # 11]) [mkpse [] false; mkpse [10 # 11] true] in
+  q_status s = Converged /\ q_stopped s = true /\ q_x s = [10 # 11] /\ length (q_trace s) = 2%nat /\
+  q_penalty s == 50 /\ q_outer s = 1%Z.
+Proof. vm_compute. repeat split. Qed.
+
+(* `converged` of a penalty solver does NOT imply feasibility (the property only speaks about the augmented-Lagrangian
+   solver): min x^2 s.t. x = 1, quadratic penalty 10, the exact inner minimiser 10/11 returned from x0 = 10/11 *)
+Theorem C05_pen_converged_feasible_refuted :
+  exists (orig : vec -> oeval) P x0 es,
+    let s := ps_run exact_rops orig P (ps_init orig P x0) es in
+    q_status s = Converged /\ ~ (Forall (fun h => qabs h <= ps_eps P) (oe_ceq (q_eval s)) /\
+                                 Forall (fun g => qmax g 0 <= ps_eps P) (oe_cineq (q_eval s))).
+Proof. exact pen_converged_feasible_refuted. Qed.
+Print Assumptions C05_pen_converged_feasible_refuted.
+
+(* exactness of the linear penalty over Q: a feasible minimiser of the penalised function minimises the objective over
+   the feasible set *)
+Theorem C05_pen_linear_exact : forall fobj cs rho x,
+  feasible (evals cs x) ->
+  (forall y, fst (linear_penalty_at fobj cs rho x) <= fst (linear_penalty_at fobj cs rho y)) ->
+  forall y, feasible (evals cs y) -> fst (fobj x) <= fst (fobj y).
+Proof. exact pen_linear_exact. Qed.
+Print Assumptions C05_pen_linear_exact.
+
+(* Fiacco-McCormick monotonicity of the quadratic penalty: for 0 <= rho1 < rho2 and points x1, x2 each at least as good
+   as the other for its own penalty (in particular: respective minimisers), the violation sum h^2 + sum max(0,g)^2 does
+   not increase and the objective does not decrease *)
+Theorem C05_pen_quadratic_monotone : forall fobj cs r1 r2 x1 x2,
+  0 <= r1 -> r1 < r2 ->
+  fst (quadratic_penalty_at fobj cs r1 x1) <= fst (quadratic_penalty_at fobj cs r1 x2) ->
+  fst (quadratic_penalty_at fobj cs r2 x2) <= fst (quadratic_penalty_at fobj cs r2 x1) ->
+  violation2 (evals cs x2) <= violation2 (evals cs x1) /\ fst (fobj x1) <= fst (fobj x2).
+Proof. exact pen_quadratic_monotone. Qed.
+Print Assumptions C05_pen_quadratic_monotone.
+
+(* non-vacuity: min x^2 s.t. x = 1: the minimisers r/(1+r) for r = 1, 3 are 1/2, 3/4; the linear penalty of
+   g(x) = x - 1 <= 0 over a constant objective is minimised by the feasible x = 0 *)
+Example C05_pen_classical_nonvacuous :
+  let fobj := fun x : vec => (hd 0 x * hd 0 x, [2 * hd 0 x]) in
+  let cs := [CLinEq [1] (-1)] in
+  0 <= 1 /\ 1 < 3 /\
+  fst (quadratic_penalty_at fobj cs 1 [1 # 2]) <= fst (quadratic_penalty_at fobj cs 1 [3 # 4]) /\
+  fst (quadratic_penalty_at fobj cs 3 [3 # 4]) <= fst (quadratic_penalty_at fobj cs 3 [1 # 2]) /\
+  violation2 (evals cs [3 # 4]) == 1 # 16 /\
+  feasible (evals [CMaximum 1 0] [0]) /\
+  (forall y, fst (linear_penalty_at (fun _ => (0, [0])) [CMaximum 1 0] 1 [0]) <=
+             fst (linear_penalty_at (fun _ => (0, [0])) [CMaximum 1 0] 1 y)).
+Proof.
+  cbv zeta. split; [discriminate|]. split; [reflexivity|]. split; [vm_compute; discriminate|].
+  split; [vm_compute; discriminate|]. split; [vm_compute; reflexivity|].
+  split; [repeat constructor; vm_compute; discriminate|].
+  intro y. destruct (C05_defs_linear 1 (0, [0]) (evals [CMaximum 1 0] y)) as [Hy _].
+  unfold linear_penalty_at. rewrite Hy. cbn.
+  pose proof (qmax_l 0 (vnth y 0 - 1)). lra.
+Qed.
+
+(* what the clamps cost (exact arithmetic): whenever the loop goes on, the multipliers of the next inner solve are the
+   projections of the un-clamped lambda+ = lambda + ro h, miu+ = max(0, miu + ro g) of C05_al_gradient_identity onto
+   [lambda_min, lambda_max] resp. [0, miu_max] (ro = the penalty THIS solve used, not the grown one); so the
+   stationarity transfer of C05_al_kkt is exact for the next iterate unless a bound is active *)
+Theorem C05_al_update_clamped : forall P s e,
+  let c := o_core s in
+  let s' := alo_step exact_rops P s e in
+  s_stopped (o_core s') = false ->
+  s_lambda (o_core s') = map (fun v => qmin (qmax v (p_lmin P)) (p_lmax P)) (next_lambda (s_ro c) (s_lambda c) (e_ceq e)) /\
+  Forall2 Qeq (s_miu (o_core s')) (map (fun v => qmin v (p_miu_max P)) (next_miu (s_ro c) (s_miu c) (e_cineq e))) /\
+  (s_outer (o_core s') = s_outer c + 1)%Z.
+Proof. exact al_update_clamped. Qed.
+Print Assumptions C05_al_update_clamped.
+
+(* non-vacuity: the step of C05_al_multipliers_nonvacuous goes on (and its un-clamped updates are 2, 2) *)
+Example C05_al_update_clamped_nonvacuous :
+  let P := mkparams (1 # 10) (1 # 2) 10 1 (-1) 1 100 in
+  let s := alo_init exact_rops 1 [0] [1] [2] in
+  let e := mkevent [7] [5] [5] true false true in
+  s_stopped (o_core (alo_step exact_rops P s e)) = false /\
+  Forall2 Qeq (next_lambda (s_ro (o_core s)) (s_lambda (o_core s)) (e_ceq e)) [2] /\
+  Forall2 Qeq (next_miu (s_ro (o_core s)) (s_miu (o_core s)) (e_cineq e)) [2].
 Proof. vm_compute. repeat split; repeat constructor. Qed.
